@@ -351,13 +351,42 @@ def standin_sympy_conditions(tier, seed):
             if got != want:
                 fails.append(dict(args=dict(condition=label, record=list(bits), simulator=name, circuit=repr(c)), failed="sympy-condition",
                                   clause=f"with record a = {list(bits)} the condition {label} is {bool(want)}, but the controlled X was {'applied' if got else 'not applied'}"))
+    # records of mixed dimensions: the integer value of a record is its digits read big-endian in the mixed radix of the measured qudits
+    shift = lambda d, k: cirq.MatrixGate(np.roll(np.eye(d), k, axis=0), qid_shape=(d,))
+    t3, b2, out = cirq.LineQid(0, dimension=3), cirq.LineQid(1, dimension=2), cirq.LineQubit(2)
+    mixed_forms = {
+        **{f"a == {k}": (sympy.Eq(a, k), (lambda k: lambda v, d: v == k)(k)) for k in range(1, 6)},
+        "a >= 4": (a >= 4, lambda v, d: v >= 4),
+        "a[0] == 2": (sympy.Eq(ai[0], 2), lambda v, d: d[0] == 2),
+        "a - a[1] == 2": (sympy.Eq(a - ai[1], 2), lambda v, d: v - d[1] == 2),
+        "(a & 6) == 4": (cirq.BitMaskKeyCondition("a", bitmask=6, target_value=4, equal_target=True), lambda v, d: (v & 6) == 4),
+        "(a & 1) != 0": (cirq.BitMaskKeyCondition("a", bitmask=1), lambda v, d: (v & 1) != 0),
+    }
+    for order in ((t3, b2), (b2, t3)):
+        dims = [x.dimension for x in order]
+        for (label, (expr, truth)), digits in itertools.product(mixed_forms.items(), itertools.product(*[range(d_) for d_ in dims])):
+            v = digits[0] * dims[1] + digits[1]
+            c = cirq.Circuit([shift(x.dimension, k).on(x) for x, k in zip(order, digits) if k], cirq.measure(*order, key="a"), cirq.X(out).with_classical_controls(expr), cirq.measure(out, key="out"))
+            want = int(bool(truth(v, digits)))
+            for name, mk in sims:
+                if name == "CliffordSimulator":
+                    continue
+                cases += 1
+                try:
+                    got = int(mk().run(c, repetitions=1).measurements["out"][0][0])
+                except Exception as ex:
+                    fails.append(dict(args=dict(condition=label, record=list(digits), dimensions=dims, simulator=name), failed="sympy-condition-raised", clause=f"{ex!r}"))
+                    continue
+                if got != want:
+                    fails.append(dict(args=dict(condition=label, record=list(digits), dimensions=dims, simulator=name, circuit=repr(c)), failed="sympy-condition",
+                                      clause=f"with record a = {list(digits)} over dimensions {dims} (value {v}) the condition {label} is {bool(want)}, but the controlled X was {'applied' if got else 'not applied'}"))
     seen, uniq = set(), []
     for f_ in fails:
         k = (f_["failed"], f_["args"]["condition"])
         if k not in seen:
             seen.add(k)
             uniq.append(f_)
-    return dict(function="cirq-core/cirq/value/condition.py:SympyCondition.resolve", case="sympy-conditions", bound="8 condition forms x all 4 values of a two-bit record x 4 simulators (exhaustive)",
+    return dict(function="cirq-core/cirq/value/condition.py:SympyCondition.resolve", case="sympy-conditions", bound="8 condition forms x all 4 values of a two-bit record x 4 simulators + 10 forms (sympy and bit-mask) x all 6 values of a (qutrit, qubit) / (qubit, qutrit) record x 3 simulators (exhaustive)",
                 cases=cases, distinct=cases, failures=len(uniq), exhaustive=True, _fails=uniq[:4])
 standin_sympy_conditions.prop = "C02"
 
